@@ -3,7 +3,8 @@
 (* Layer 1: the XML 1.0 subset that the XML archive emits and must accept:   *)
 (* XML declaration, elements, attributes, character data, the five           *)
 (* predefined entities, decimal / hexadecimal character references,          *)
-(* end-of-line normalisation.  (DTDs, namespaces, comments, CDATA and other  *)
+(* end-of-line normalisation, CDATA sections and comments in element       *)
+(* content.  (DTDs, namespaces, processing instructions and other          *)
 (* processing instructions are outside the model and outside what the        *)
 (* archive emits.)                                                           *)
 (*   Parse(text) -> [ok, el]   el = <<name, attrs, kids, text>>              *)
@@ -77,10 +78,31 @@ XAttrs(t, p, acc) ==      \* after the element name; returns [ok, attrs, p] with
           IF ~r.ok \/ r.p > Len(t) \/ t[r.p] # t[v0] THEN [ok |-> FALSE, attrs |-> acc, p |-> r.p]
           ELSE XAttrs(t, r.p + 1, Append(acc, <<SubSeq(t, q, ne - 1), r.s>>))
 
+\* character data of a CDATA section starting at p (behind "<![CDATA["): up to "]]>", nothing is an escape inside
+RECURSIVE XCData(_, _, _)
+XCData(t, p, acc) ==
+  IF p > Len(t) THEN [ok |-> FALSE, s |-> acc, p |-> p]
+  ELSE IF Lit(t, p, <<93, 93, 62>>) THEN [ok |-> TRUE, s |-> acc, p |-> p + 3]
+  ELSE IF ~IsXmlChar(t[p]) THEN [ok |-> FALSE, s |-> acc, p |-> p]
+  ELSE IF t[p] = 13 THEN XCData(t, IF p + 1 <= Len(t) /\ t[p + 1] = 10 THEN p + 2 ELSE p + 1, Append(acc, 10))
+  ELSE XCData(t, p + 1, Append(acc, t[p]))
+\* position behind the "-->" that closes a comment whose text starts at p ("--" must not occur inside); 0 = ill-formed
+RECURSIVE XCommentEnd(_, _)
+XCommentEnd(t, p) ==
+  IF p + 2 > Len(t) THEN 0
+  ELSE IF t[p] = 45 /\ t[p + 1] = 45 THEN (IF t[p + 2] = 62 THEN p + 3 ELSE 0)
+  ELSE IF ~IsXmlChar(t[p]) THEN 0
+  ELSE XCommentEnd(t, p + 1)
+
 RECURSIVE XElement(_, _), XContent(_, _, _, _, _)
 \* content of element `name` starting at p: accumulates kids and text until the matching end tag
 XContent(t, p, name, kids, text) ==
   IF p > Len(t) THEN XFail(p)
+  ELSE IF Lit(t, p, <<60, 33, 91, 67, 68, 65, 84, 65, 91>>) THEN      \* <![CDATA[ ... ]]> : literal character data (end-of-line normalised)
+       LET r == XCData(t, p + 9, <<>>) IN
+       IF ~r.ok THEN XFail(r.p) ELSE XContent(t, r.p, name, kids, text \o r.s)
+  ELSE IF Lit(t, p, <<60, 33, 45, 45>>) THEN                          \* <!-- comment --> : ignored
+       LET e == XCommentEnd(t, p + 4) IN IF e = 0 THEN XFail(p) ELSE XContent(t, e, name, kids, text)
   ELSE IF t[p] = 60 THEN
        IF p + 1 <= Len(t) /\ t[p + 1] = 47 THEN          \* end tag
             LET ne == XName(t, p + 2) IN
@@ -134,6 +156,14 @@ XEsc(c, style, inAttr) ==
 RECURSIVE XEscAll(_, _, _, _)
 XEscAll(s, style, inAttr, i) == IF i > Len(s) THEN <<>> ELSE XEsc(s[i], style, inAttr) \o XEscAll(s, style, inAttr, i + 1)
 
+\* character data of an element: escaped, or (style.cdata = 1) as a CDATA section preceded by a comment, when the text allows it
+\* (no "]]>", and no CR, which would be normalised inside the section)
+HasSeq3(s, a, b, c) == \E i \in 1..(Len(s) - 2) : s[i] = a /\ s[i + 1] = b /\ s[i + 2] = c
+XTextOf(s, style) ==
+  IF "cdata" \in DOMAIN style /\ style.cdata = 1 /\ ~HasSeq3(s, 93, 93, 62) /\ ~(\E i \in 1..Len(s) : s[i] = 13)
+  THEN <<60, 33, 45, 45, 32, 99, 32, 45, 45, 62>> \o <<60, 33, 91, 67, 68, 65, 84, 65, 91>> \o s \o <<93, 93, 62>>
+  ELSE XEscAll(s, style, FALSE, 1)
+
 XIndent(style, depth) ==
   IF style.indent = 0 THEN <<>> ELSE <<10>> \o (IF style.indent < 0 THEN [i \in 1..depth |-> 9] ELSE [i \in 1..(depth * style.indent) |-> 32])
 
@@ -146,7 +176,7 @@ XRenderKids(kids, style, depth, i) ==
 XRenderEl(el, style, depth) ==
   LET open == <<60>> \o el[1] \o XRenderAttrs(el[2], style, 1) IN
   IF el[3] = <<>> /\ el[4] = <<>> THEN (IF style.empty = 0 THEN open \o <<47, 62>> ELSE open \o <<62, 60, 47>> \o el[1] \o <<62>>)
-  ELSE IF el[3] = <<>> THEN open \o <<62>> \o XEscAll(el[4], style, FALSE, 1) \o <<60, 47>> \o el[1] \o <<62>>
+  ELSE IF el[3] = <<>> THEN open \o <<62>> \o XTextOf(el[4], style) \o <<60, 47>> \o el[1] \o <<62>>
   ELSE open \o <<62>> \o XRenderKids(el[3], style, depth + 1, 1) \o XIndent(style, depth) \o <<60, 47>> \o el[1] \o <<62>>
 
 EncNameOf(enc) == IF enc = "utf8" THEN <<85, 84, 70, 45, 56>> ELSE IF enc \in {"utf16le", "utf16be"} THEN <<85, 84, 70, 45, 49, 54>> ELSE <<85, 84, 70, 45, 51, 50>>
